@@ -163,6 +163,65 @@ def _run_session(path, recs, via, readback=None):
     return _effective_log(start, r.log, path), start
 
 
+class _Interrupting:
+    """stream proxy: the write that crosses byte `at` of the session's output delivers only the bytes before it and then raises
+    KeyboardInterrupt (Ctrl-C / a SIGTERM handler calling sys.exit while a record is going out) - once"""
+
+    def __init__(self, real, at):
+        self._r, self._at, self._n, self._done = real, at, 0, False
+
+    def write(self, b):
+        b = bytes(b)
+        if not self._done and self._n + len(b) > self._at:
+            self._done = True
+            part = b[: max(0, self._at - self._n)]
+            if part:
+                self._r.write(part)
+            self._n += len(part)
+            raise KeyboardInterrupt("injected")
+        self._n += len(b)
+        return self._r.write(b)
+
+    def __getattr__(self, n):
+        return getattr(self._r, n)
+
+
+def _run_session_interrupted(path, recs, via, at):
+    """the append session is hit by KeyboardInterrupt at byte `at` of its output - and then winds down the ORDERLY way (the exception
+    travels up through the with-block / the handle is closed), unlike a killed process"""
+    from molli.storage.ukvfile import UKVFile
+
+    if via == "raw":
+        f = UKVFile(path, "a")
+        f._stream = _Interrupting(f._stream, at)
+        try:
+            for k, v in recs:
+                f.put(k, v)
+        except KeyboardInterrupt:
+            pass
+        finally:
+            f.close()
+        return
+    from molli.storage import Collection, UkvCollectionBackend
+    import atexit
+
+    # (buffered flavour: a buffer that overflows at the LAST put of the session - the flush it triggers, inside the with-block, is the one
+    #  that gets interrupted, with records still queued behind the one going out; the exit-time flush then writes those)
+    bs = max(1, sum(len(k) + len(v) for k, v in recs) - 1) if via == "coll_buf" else -1
+    c = Collection(path, UkvCollectionBackend, readonly=False, bufsize=bs)
+    atexit.unregister(c._backend.flush)
+    try:
+        with c.writing():
+            fu = c._backend._ukvfile
+            fu._stream = _Interrupting(fu._stream, at)
+            for k, v in recs:
+                c[k.decode("ascii")] = v
+    except KeyboardInterrupt:
+        pass
+    finally:
+        c._backend._write_queue.clear()
+
+
 def _read_all(path):
     from molli.storage.ukvfile import UKVFile
 
@@ -179,7 +238,7 @@ def _read_all(path):
         f.close()
 
 
-def _reuse_history(path, base_img, img, rec2, via, pre):
+def _reuse_history(path, base_img, img, rec2, via, pre, direct=False):
     """ONE long-lived object (UKVFile handle / Collection) goes through the whole recovery: optionally it has already been used on the
     intact library (pre), then the crash image appears on disk (another process' append died), then on the SAME object: a reading use,
     a writing use with the recovery puts, a reading use.  Returns (view after the first reading use, view at the end)."""
@@ -196,10 +255,13 @@ def _reuse_history(path, base_img, img, rec2, via, pre):
             f.close()
             with open(path, "wb") as fh:
                 fh.write(img)
-        f.open("r")
-        ks1 = list(f.keys())
-        v1 = {k: f.get(k) for k in ks1}
-        f.close()
+        if direct and pre:
+            ks1, v1 = None, None       # (no reading use in between: the object goes straight from the intact library to the recovery append)
+        else:
+            f.open("r")
+            ks1 = list(f.keys())
+            v1 = {k: f.get(k) for k in ks1}
+            f.close()
         f.open("a")
         for k, v in rec2:
             f.put(k, v)
@@ -221,9 +283,12 @@ def _reuse_history(path, base_img, img, rec2, via, pre):
             pass
         with open(path, "wb") as fh:
             fh.write(img)
-    with c.reading():
-        ks1 = [k.encode() for k in c.keys()]
-        v1 = {k: c[k.decode()] for k in ks1}
+    if direct and pre:
+        ks1, v1 = None, None
+    else:
+        with c.reading():
+            ks1 = [k.encode() for k in c.keys()]
+            v1 = {k: c[k.decode()] for k in ks1}
     with c.writing():
         for k, v in rec2:
             c[k.decode("ascii")] = v
@@ -247,6 +312,10 @@ def check(recipe) -> list[Fail]:
     base = _recs(recipe["base"], 0)
     sess = _recs(recipe["session"], len(base))
     recov = _recs(recipe["recovery"], len(base) + len(sess))
+    if recipe.get("zero_vals"):
+        # values that consist of zero bytes (padding, empty arrays): whatever is left of one on disk looks like empty records
+        sess = [(k, b"\0" * len(v)) for k, v in sess]
+        recov = [(k, b"\0" * len(v)) for k, v in recov]
     ek = recipe.get("empty_key")
     if ek is not None:
         # one record of the history is stored under the empty key (an ordinary key)
@@ -382,11 +451,11 @@ def check(recipe) -> list[Fail]:
             if recipe.get("reuse") and (only is not None or stride or p % 2 == 0 or not inside):
                 n_img += 1
                 try:
-                    (ksa, va), (ksb, vb) = _reuse_history(w2path, base_img, img, rec2, via, pre=(p % 4 == 0))
+                    (ksa, va), (ksb, vb) = _reuse_history(w2path, base_img, img, rec2, via, pre=(p % 4 == 0), direct=(p % 8 == 4))
                 except Exception as e:
                     fail("R4:re-used-object-raises", repr(e)[:200], p)
                     continue
-                if not check_view(ksa, va, smap, bmap, p, None, "R4:first-read"):
+                if ksa is not None and not check_view(ksa, va, smap, bmap, p, None, "R4:first-read"):
                     continue
                 if not check_view(ksb, vb, {}, must2, p, None, "R4:after-recovery"):
                     continue
@@ -414,6 +483,20 @@ def check(recipe) -> list[Fail]:
                     must3.update(visible)
                     if not check_view(ks3, vals3, dict(rec2), must3, p, p2, "R3"):
                         break
+        # R5: not a killed process but an INTERRUPTED one: KeyboardInterrupt at byte p of the session's output, then the orderly wind-down
+        #     (with-block exit incl. its flush of what is still queued, close).  Same oracle as R1 on what is left on disk.
+        if recipe.get("interrupt") and total > 0:
+            step5 = max(1, total // 40) if only is None else 1
+            for p5 in ([only] if only is not None else list(range(1, total, step5)) + sorted(b_ + d_ for b_ in bounds for d_ in (1, 3, 5, 6) if 0 < b_ + d_ < total)):
+                open(wpath, "wb").write(base_img)
+                n_img += 1
+                try:
+                    _run_session_interrupted(wpath, sess, via, p5)
+                    ks5, vals5 = _read_all(wpath)
+                except Exception as e:
+                    fail("R5:interrupted-session-or-reopen-raises", repr(e)[:200], p5)
+                    continue
+                check_view(ks5, vals5, smap, bmap, p5, None, "R5:after-KeyboardInterrupt")
         tally(units=n_img, nontrivial_keys=nt_keys, labels={"images": n_img, "images_inside_a_record": n_inside, f"via={via}": 1})
     finally:
         for q in (path, wpath, w2path):
@@ -462,7 +545,7 @@ def strat(tier):
             "recovery": st.lists(small_pair, min_size=0, max_size=2),
             "reuse_torn_key": st.booleans(),
             "second_crash_every": st.sampled_from([0, 0, 17] if not big else [0, 5, 1]),
-            "empty_key": st.one_of(st.none(), st.none(), st.integers(0, 6)), "reuse": st.booleans(),
+            "empty_key": st.one_of(st.none(), st.none(), st.integers(0, 6)), "reuse": st.booleans(), "interrupt": st.booleans(), "zero_vals": st.sampled_from([False, False, True]),
         }
     )
 
@@ -478,10 +561,12 @@ def enum_big(tier, shard, nshards):
     ]
     # values past the 1 MiB / 4 MiB marks (size thresholds of any "large record" path)
     mb = {"via": "raw", "base": [[3, 10]], "session": [[4, (1 << 20) + 4097], [2, 5]], "recovery": [[2, 5]], "reuse_torn_key": True, "second_crash_every": 0, "stride": 8192, "reuse": True}
+    # an INTERRUPTED (not killed) buffered session whose big zero-valued record is followed by short ones (stage R5)
+    intr = {"via": "coll_buf", "base": [[3, 10]], "session": [[2, 40], [4, 6000], [2, 5], [3, 17]], "recovery": [[2, 5]], "reuse_torn_key": True, "second_crash_every": 0, "stride": 512, "interrupt": True, "zero_vals": True}
     if tier == "quick":
-        cases = cases[1:2] + [mb]
+        cases = cases[1:2] + [mb, intr]
     else:
-        cases += [mb, dict(mb, via="coll_buf", session=[[2, 5], [3, (1 << 22) + 1]], stride=65536)]
+        cases += [mb, dict(mb, via="coll_buf", session=[[2, 5], [3, (1 << 22) + 1]], stride=65536), intr, dict(intr, zero_vals=False), dict(intr, session=[[4, 70000], [2, 5]])]
     for i, c in enumerate(cases):
         if i % nshards == shard:
             yield c
@@ -489,7 +574,7 @@ def enum_big(tier, shard, nshards):
 
 LEGS = [
     Leg(
-        "crash_big", check, classify, enumerate=enum_big, shards={"quick": 2, "thorough": 6},
+        "crash_big", check, classify, enumerate=enum_big, shards={"quick": 3, "thorough": 8},
         rule="fixed sessions with 8-70 kB values and one value just over 1 MiB (thorough: also 4 MiB); crash offsets sampled: every 16th/64th byte plus all offsets within 16 B of a field boundary (NOT exhaustive)",
     ),
     Leg(
